@@ -255,9 +255,10 @@ theorem copy_sample_eq (null : α) (e r : DExt κ α) (isTime : Bool)
     have hb1 : (gslices.sub == "samples") = false := by rfl
     have hb2 : (gslices.base == (if isTime then "time" else "vector")) = false := by cases isTime <;> rfl
     have hb3 : (gslices.base != "global") = false := by rfl
+    have hb3' : (gslices.base == "global") = true := by rfl
     have hk : copySampleK e.shp r.shp isTime idx gslices vals = (gslices, globalSliceSubset e.shp isTime idx vals, true) := by
       cases isTime <;> simp [copySampleK]
-    simp only [hb0, hb1, hb2, hb3, Bool.not_true, Bool.false_eq_true, if_false, heS, ok_bind', hgss, set_nil,
+    simp only [hb0, hb1, hb2, hb3, hb3', Bool.not_true, Bool.false_eq_true, if_false, if_true, heS, ok_bind', hgss, set_nil,
       valuesAndClass_single _ _ _ hgs, bind_pure, hk, if_true]
     exact hsa gslices hgs _
   · -- time samples
@@ -307,9 +308,10 @@ theorem copy_sample_eq (null : α) (e r : DExt κ α) (isTime : Bool)
     · -- vector split: unchanged
       have hb2 : (tslices.base == "vector") = false := by rfl
       have hb3 : (tslices.base != "global") = true := by rfl
+      have hb3' : (tslices.base == "global") = false := by rfl
       have hb4 : ("vector" == "time") = false := by decide
       have hk : copySampleK e.shp r.shp false idx tslices vals = (tslices, vals, false) := by simp [copySampleK]
-      simp [hb0, hb1, hb2, hb3, hb4, hk, set_nil, errOf, Except.map, toDict, pure, Except.pure]
+      simp [hb0, hb1, hb2, hb3, hb3', hb4, hk, set_nil, errOf, Except.map, toDict, pure, Except.pure]
     · -- time split: the per-slice values of the one remaining volume, under the first wider class the result has
       have hb2 : (tslices.base == "time") = true := by rfl
       simp only [hb0, hb1, hb2, Bool.not_true, Bool.false_eq_true, if_false, if_true, preserving, List.find?, cgs]
@@ -356,11 +358,12 @@ theorem copy_sample_eq (null : α) (e r : DExt κ α) (isTime : Bool)
     · -- time split: the slices of the time point, then `_simplify`
       have hb2 : (vslices.base == "time") = false := by rfl
       have hb3 : (vslices.base != "global") = true := by rfl
+      have hb3' : (vslices.base == "global") = false := by rfl
       have hb4 : ("time" == "time") = true := by decide
       have hk : copySampleK e.shp r.shp true idx vslices vals = (vslices, (vals.drop (idx * r.shp.S)).take r.shp.S, true) := by
         simp [copySampleK]
       have hvs : vslices ∈ validClasses r.shp := by simpa [hk] using hdest
-      simp only [hb0, hb1, hb2, hb3, hb4, Bool.not_true, Bool.false_eq_true, if_false, if_true, hrS, ok_bind', set_nil,
+      simp only [hb0, hb1, hb2, hb3, hb3', hb4, Bool.not_true, Bool.false_eq_true, if_false, if_true, hrS, ok_bind', set_nil,
         valuesAndClass_single _ _ _ hvs, bind_pure, hk, Nat.add_sub_cancel_left]
       exact hsa vslices hvs _
 
@@ -388,14 +391,16 @@ theorem get_subset_key_slice_eq (null : α) (e r : DExt κ α) (dim : Nat) (hed 
     simp only [hcb, Bool.false_eq_true, if_false, hd, if_true]
     by_cases hp : perSlice c = true
     · have hsub : (c.sub != "slices") = false := by cases c <;> simp [perSlice] at hp <;> rfl
-      simp only [hsub, Bool.false_eq_true, if_false, hp, if_true, heS, ← hrs]
+      have hsub' : (c.sub == "slices") = true := by cases c <;> simp [perSlice] at hp <;> rfl
+      simp only [hsub, hsub', Bool.false_eq_true, if_false, hp, if_true, heS, ← hrs]
       rw [copy_slice_eq null r h3 h5 hsl hbase e.shp.S c hp vals idx (hne hp)]
       cases applySimplify null r.shp (some (copySliceDest (validClasses r.shp) c,
           copySliceVals e.shp.S (mult r.shp (copySliceDest (validClasses r.shp) c)) idx vals)) <;>
         simp [errOf, Except.map, bind, Except.bind, pure, Except.pure]
     · have hp' : perSlice c = false := by simpa using hp
       have hsub : (c.sub != "slices") = true := by cases c <;> simp [perSlice] at hp' <;> rfl
-      simp [hsub, hp', set_nil, errOf, Except.map, toDict, pure, Except.pure]
+      have hsub' : (c.sub == "slices") = false := by cases c <;> simp [perSlice] at hp' <;> rfl
+      simp [hsub, hsub', hp', set_nil, errOf, Except.map, toDict, pure, Except.pure]
 
 /-- **a subset along a spatial axis other than the slice axis copies every key** -/
 theorem get_subset_key_spatial_eq (null : α) (e r : DExt κ α) (dim : Nat) (hed : e.sliceDim ≠ some dim) (hd3 : dim < 3)
